@@ -73,19 +73,23 @@ type World struct {
 
 // RevScenario is everything one run does.
 type RevScenario struct {
-	Prof        *RevProfile
-	Config      int
-	Worlds      []*World
-	Fetcher     int
-	Discard     bool
-	OCSPTimeout time.Duration
-	CRLTimeout  time.Duration
-	Cancel      int
-	CancelAfter time.Duration
-	PanicAt     string // "" | "transport" | "fetcher" | "cache"
-	PanicWorld  int
-	PanicRep    int
-	PanicCert   int
+	Prof             *RevProfile
+	Config           int
+	Worlds           []*World
+	Fetcher          int
+	Discard          bool
+	OCSPTimeout      time.Duration
+	CRLTimeout       time.Duration
+	Cancel           int
+	CancelAfter      time.Duration
+	CancelXSel       int    // CancelOnXchg: selects one of the planned exchanges
+	CancelXPreferCRL bool   // ... preferring base-CRL downloads (the base/delta boundary)
+	HealCert         int    // C06.R5 twin: certificate whose sources are made honest in the second run
+	PanicAt          string // "" | "transport" | "fetcher" | "cache"
+	PanicWorld       int
+	PanicRep         int
+	PanicCert        int
+	PanicCerts       []int // transport panics additionally at the first exchange of these certificates
 	// enabled swarm masks
 	netMask uint32
 	byzMask uint32
@@ -215,6 +219,7 @@ func genEntries(t *Tape, rich bool, truth int) []EntryPlan {
 			e.RevIdx = t.Choose(3)
 			e.InvKind = t.Weighted(45, 15, 12, 25, 3)
 			e.Crit = t.Bool(6)
+			e.CritFirst = t.Bool(50)
 		} else {
 			e.Match = false
 			e.Reason = t.Choose(11)
@@ -298,7 +303,7 @@ func (p *RevProfile) genCRLPlan(t *Tape, sc *RevScenario, truth int, deviate boo
 		}
 	case 5:
 		// a matching entry with an unknown critical extension
-		c.Entries = append(c.Entries, EntryPlan{Match: true, Reason: []int{6, 8, 1, -1}[t.Choose(4)], RevIdx: t.Choose(3), Crit: true})
+		c.Entries = append(c.Entries, EntryPlan{Match: true, Reason: []int{6, 8, 1, -1}[t.Choose(4)], RevIdx: t.Choose(3), Crit: true, CritFirst: t.Bool(50), InvKind: t.Weighted(40, 15, 15, 30)})
 	}
 	return c
 }
@@ -337,8 +342,13 @@ func GenRevScenario(t *Tape, p *RevProfile) *RevScenario {
 		}
 	}
 	if p.CancelPct > 0 && t.Bool(p.CancelPct) {
-		sc.Cancel = 1 + t.Weighted(15, 70, 15)
+		sc.Cancel = 1 + t.Weighted(12, 48, 12, 28)
 		sc.CancelAfter = time.Duration(t.Choose(6000)) * time.Millisecond
+		sc.CancelXSel = t.Choose(1000)
+		sc.CancelXPreferCRL = t.Bool(50)
+	}
+	if n := len(sc.Worlds[0].Certs); n > 1 {
+		sc.HealCert = t.Choose(n - 1)
 	}
 	if p.PanicPct > 0 && t.Bool(p.PanicPct) {
 		sc.PanicAt = []string{"transport", "fetcher", "cache"}[t.Weighted(50, 30, 20)]
@@ -347,6 +357,14 @@ func GenRevScenario(t *Tape, p *RevProfile) *RevScenario {
 		sc.PanicRep = t.Choose(w.reps())
 		if len(w.Certs) > 1 {
 			sc.PanicCert = t.Choose(len(w.Certs) - 1)
+		}
+		if sc.PanicAt == "transport" && t.Bool(35) {
+			// several per-certificate checks panic in the same call
+			for c := 0; c < len(w.Certs)-1; c++ {
+				if c != sc.PanicCert && t.Bool(60) {
+					sc.PanicCerts = append(sc.PanicCerts, c)
+				}
+			}
 		}
 	}
 	for i := 0; i < p.Schedules-1; i++ {
@@ -460,7 +478,13 @@ func (p *RevProfile) genWorld(t *Tape, sc *RevScenario, id int) *World {
 				// base advertising odd freshest shapes without usable location
 				s.FrShape = []int{FrEmptySeq, FrNonURI, FrNoDPName}[t.Choose(3)]
 			} else if p.Hostile && t.Bool(15) {
-				s.FrShape = []int{FrMalformed, FrRelativeName, FrEmptySeq, FrNonURI, FrNoDPName}[t.Choose(5)]
+				s.FrShape = []int{FrMalformed, FrRelativeName, FrEmptySeq, FrNonURI, FrNoDPName, FrBadNameTLV, FrBadURITLV, FrGarbageAfterURI, FrNonURIThenURI}[t.Choose(9)]
+				if s.FrShape == FrGarbageAfterURI || s.FrShape == FrNonURIThenURI {
+					s.DeltaURL = []string{fmt.Sprintf("http://d%d-%d-0.w%d.sim/delta.crl", pos, i, id)}
+					s.DeltaFault = []Fault{{}}
+					s.DeltaLat = []time.Duration{genLatency(t, p.LatMax)}
+					s.Delta = p.genCRLPlan(t, sc, truth, false, true)
+				}
 			}
 			if sc.Fetcher == FetchStub {
 				s.StubErr = faulty && t.Bool(p.PSrcFault/2)
